@@ -41,8 +41,10 @@ def tensor_attr(it, tv, attr, node):
     if attr == "grad":
         g = tv.obj.grad
         return g if g is not None else VConst(None)
+    if attr == "_version":
+        return VNum("int", T.sym("ver:T%d:%d" % (tv.obj.id, tv.obj.version)), nonneg=True)
     if attr in ("dtype", "device", "layout"):
-        u = VUnknown("%s(T%d)" % (attr, tv.obj.id), attr)
+        u = VUnknown("%s(T%d)" % (attr, tv.obj.dtype_root().id), attr)
         u.not_none = True
         return u
     if attr == "ndim":
@@ -141,6 +143,7 @@ def tensor_method(it, tv, name, args, kwargs, node):
     if name == "clone" or name == "copy":
         r = it.fresh(t, shape, kind, node)
         r.obj.valkind = tv.obj.valkind
+        r.obj.dtype_src = tv.obj
         return r
     if name == "numpy":
         r = it.fresh(t, shape, "ndarray", node)
